@@ -4,7 +4,8 @@ from hypothesis import strategies as st
 
 from .ref import profile_lang as PL
 
-_PLAIN = [chr(c) for c in list(range(0x20, 0x7F)) if chr(c) not in '"\\'] + ["é", "ÿ", "\n", "\t"]
+# (raw control characters that some text functions treat as line boundaries are ordinary literal content)
+_PLAIN = [chr(c) for c in list(range(0x20, 0x7F)) if chr(c) not in '"\\'] + ["é", "ÿ", "\n", "\t", "\x0b", "\x0c", "\x1c", "\x1e", "\x1f", "\n", "\t"]
 _HH = [0x00, 0x01, 0x0A, 0x22, 0x27, 0x41, 0x5C, 0x7F, 0x80, 0xFF]
 
 
